@@ -30,7 +30,7 @@ func init() {
 		n := cnt(40000, 2000000)
 		parallelFor(ctx, n, true, col, func(o *Oracle, i int) {
 			r := NewRng(ctx.Seed, "c14", i)
-			switch r.Pick(4, 4, 2, 2, 1) {
+			switch r.Pick(4, 4, 2, 2, 1, 3) {
 			case 0: // collinearity
 				var a, b, c P
 				if r.Bool() {
@@ -50,6 +50,53 @@ func init() {
 				col.Sample(line)
 				if !strings.HasPrefix(resp, "ok") {
 					col.Violate(Violation{Property: "C14", Kind: "isCollinear", Signature: collinearSig(a, b, c, line), Detail: line + " -> " + resp, Case: map[string]interface{}{"fn": "isCollinear", "pts": []P{a, b, c}, "got": got}, Stream: "c14", Index: i, Seed: ctx.Seed})
+				}
+			case 5: // point in polygon, long edges: query points whose exact cross product with an edge is ±1 or 0
+				lim := int64(1) << 29
+				dx := lim + int64(r.Intn(1<<28))
+				dy := lim/2 + int64(r.Intn(1<<28))
+				g, u, v := egcd(dx, dy) // dx*u + dy*v = g
+				dx, dy = dx/g, dy/g
+				// (qx,qy) with dx*qy - dy*qx = 1: qy = u, qx = -v  (dx*u + dy*v = 1)
+				qx, qy := -v, u
+				// shift along the edge direction so that 0 < qx < dx
+				t := int64(0)
+				if qx <= 0 {
+					t = (-qx)/dx + 1
+				} else if qx >= dx {
+					t = -(qx / dx)
+				}
+				qx, qy = qx+t*dx, qy+t*dy
+				a := P{X: -lim + int64(r.Intn(1000)), Y: -lim + int64(r.Intn(1000))}
+				b := P{X: a.X + dx, Y: a.Y + dy}
+				c := P{X: b.X, Y: a.Y}
+				poly := clip.Path64{a, b, c}
+				if r.Bool() {
+					poly = clip.Path64{c, b, a}
+				}
+				poly = rotate(poly, r.Intn(3))
+				pt := P{X: a.X + qx, Y: a.Y + qy}
+				switch r.Intn(3) {
+				case 1: // the mirror point on the other side of the edge: cross = -1
+					pt = P{X: a.X + dx - qx, Y: a.Y + dy - qy}
+				case 2: // exactly on the edge (a lattice point exists only at the ends when gcd = 1)
+					pt = b
+				}
+				if pt.X > lim || pt.Y > lim || pt.X < -lim || pt.Y < -lim || b.X > lim || b.Y > lim {
+					return
+				}
+				got := clip.PointInPolygon(pt, poly)
+				line := fmt.Sprintf("c14 pip %d %d %s %d", pt.X, pt.Y, pathStr(poly), int(got))
+				resp := o.Ask(line)
+				col.Eval(line, true, "pip-long-edge", fmt.Sprintf("pip=%d", int(got)))
+				if !strings.HasPrefix(resp, "ok") {
+					col.Violate(Violation{Property: "C14", Kind: "PointInPolygon", Signature: sigOf(line), Detail: line + " -> " + resp, Case: map[string]interface{}{"fn": "PointInPolygon", "pt": pt, "poly": poly, "got": int(got)}, Stream: "c14", Index: i, Seed: ctx.Seed})
+				}
+				// the same triple through the collinearity predicate
+				gc := clip.VIsCollinear(a, pt, b)
+				line = fmt.Sprintf("c14 collinear %d %d %d %d %d %d %d", a.X, a.Y, pt.X, pt.Y, b.X, b.Y, b2i(gc))
+				if resp := o.Ask(line); !strings.HasPrefix(resp, "ok") {
+					col.Violate(Violation{Property: "C14", Kind: "isCollinear", Signature: collinearSig(a, pt, b, line), Detail: line + " -> " + resp, Case: map[string]interface{}{"fn": "isCollinear", "pts": []P{a, pt, b}, "got": gc}, Stream: "c14", Index: i, Seed: ctx.Seed})
 				}
 			case 1: // point in polygon
 				k := r.Range(4, 7)
@@ -166,6 +213,15 @@ func collinearSig(a, b, c P, fallback string) string {
 		}
 	}
 	return sigOf(fallback)
+}
+
+// extended Euclid: returns g, u, v with a*u + b*v = g
+func egcd(a, b int64) (int64, int64, int64) {
+	if b == 0 {
+		return a, 1, 0
+	}
+	g, u, v := egcd(b, a%b)
+	return g, v, u - (a/b)*v
 }
 
 func b2i(b bool) int {
